@@ -797,71 +797,145 @@ func ruleAnalyzerStateless(c *Ctx) {
 // path).  Which of the files matched by the pattern count as included must not depend on who expanded it: a filter
 // applied to the matches by one expander only (hidden files skipped by the loader but not by the workspace index)
 // makes the incremental include graph name files a rebuild would not load.  For every call of a glob function the
-// rule collects the library predicates that - applied to a match - decide whether the match is kept (the control
-// dependences of the append that keeps it, followed into module helpers); the expanders must agree on that set.
+// rule collects the library functions (outside the module, called directly or inside module helpers; filepath.Abs
+// and filepath.Clean, which only re-spell a path, are not counted) whose results decide whether a match is kept in a list of
+// paths: the control dependences of the appends of match-derived strings, in the expanding function, its function
+// literals and the helpers it hands the matches to.  The expanders must agree on that set.  Comparisons of paths
+// (a match is not the including file, not seen before) involve no library predicate and are not compared.
 func ruleGlobSiblings(c *Ctx) {
 	type site struct {
 		f     *ssa.Function
 		pos   token.Pos
 		preds map[string]bool
 	}
-	var sites []site
-	for _, f := range c.P.ModuleFuncs() {
-		for _, b := range f.Blocks {
+	isStrings := func(t types.Type) bool {
+		ts := types.TypeString(t, nil)
+		return ts == "[]string" || ts == "string"
+	}
+	// libCallees: the library functions a predicate consists of (itself, or what a module helper calls)
+	var libCallees func(cal *ssa.Function, depth int, out map[string]bool)
+	libCallees = func(cal *ssa.Function, depth int, out map[string]bool) {
+		if !inModule(cal) {
+			if cal.Pkg == nil {
+				return
+			}
+			name := cal.Pkg.Pkg.Path() + "." + cal.Name()
+			if name == "path/filepath.Abs" || name == "path/filepath.Clean" || strings.Contains(cal.Name(), "Glob") {
+				return // another spelling of the same path: how both expanders recognise the including file
+			}
+			out[name] = true
+			return
+		}
+		if depth >= 3 {
+			return
+		}
+		for _, b := range cal.Blocks {
 			for _, ins := range b.Instrs {
-				call, ok := ins.(*ssa.Call)
-				if !ok {
-					continue
+				if ic, ok := ins.(*ssa.Call); ok {
+					if c2 := ic.Call.StaticCallee(); c2 != nil && c2 != cal {
+						libCallees(c2, depth+1, out)
+					}
 				}
-				cal := call.Call.StaticCallee()
-				if cal == nil || cal.Pkg == nil || inModule(cal) || !strings.Contains(cal.Name(), "Glob") || len(call.Call.Args) == 0 {
-					continue
+			}
+		}
+	}
+	// predsIn: the library predicates deciding appends of strings derived from `roots` in fn and its literals
+	var predsIn func(fn *ssa.Function, roots map[ssa.Value]bool, depth int, out map[string]bool)
+	predsIn = func(fn *ssa.Function, roots map[ssa.Value]bool, depth int, out map[string]bool) {
+		fns := append([]*ssa.Function{fn}, fn.AnonFuncs...)
+		inRegion := map[*ssa.Function]bool{}
+		for _, g := range fns {
+			inRegion[g] = true
+		}
+		derived := func(v ssa.Value) bool {
+			for w := range backSlice(v) {
+				if roots[w] {
+					return true
 				}
-				if sl, ok := call.Type().(*types.Tuple); !ok || sl.Len() == 0 || types.TypeString(sl.At(0).Type(), nil) != "[]string" {
-					continue
-				}
-				st := site{f: f, pos: call.Pos(), preds: map[string]bool{}}
-				dependsOnGlob := func(v ssa.Value) bool { return backSlice(v)[call] }
-				kept := 0
-				for _, b2 := range f.Blocks {
-					for _, ins2 := range b2.Instrs {
-						ap, ok := ins2.(*ssa.Call)
-						if !ok {
+			}
+			return false
+		}
+		for _, g := range fns {
+			for _, b := range g.Blocks {
+				for _, ins := range b.Instrs {
+					call, ok := ins.(*ssa.Call)
+					if !ok {
+						continue
+					}
+					if bi, ok := call.Call.Value.(*ssa.Builtin); ok {
+						if bi.Name() != "append" || len(call.Call.Args) < 2 || !isStrings(call.Call.Args[1].Type()) || !derived(call.Call.Args[1]) {
 							continue
 						}
-						if bi, ok := ap.Call.Value.(*ssa.Builtin); !ok || bi.Name() != "append" || len(ap.Call.Args) < 2 || !dependsOnGlob(ap.Call.Args[1]) {
-							continue
-						}
-						kept++
-						for _, cc := range controlDeps(b2) {
+						for _, cc := range controlDeps(b) {
 							sl := backSlice(cc.Cond)
-							if !sl[call] {
+							dep := false
+							for w := range sl {
+								if roots[w] {
+									dep = true
+								}
+							}
+							if !dep {
 								continue
 							}
 							for w := range sl {
 								pc, ok := w.(*ssa.Call)
-								if !ok || pc == call {
-									continue
+								if !ok || roots[pc] || !inRegion[pc.Parent()] || !derived(pc) {
+									continue // only what is computed from the matches in this function (not what the pattern was built from)
 								}
 								pcal := pc.Call.StaticCallee()
-								if pcal == nil || inModule(pcal) || pcal.Pkg == nil {
+								if pcal == nil {
 									continue
 								}
-								if pc.Parent() == f && !dependsOnGlob(pc) {
-									continue
-								}
-								st.preds[pcal.Pkg.Pkg.Path()+"."+pcal.Name()] = true
+								libCallees(pcal, 0, out)
 							}
 						}
+						continue
+					}
+					// a helper that is handed match-derived values
+					cal := call.Call.StaticCallee()
+					if cal == nil || !inModule(cal) || depth >= 2 || cal == fn {
+						continue
+					}
+					sub := map[ssa.Value]bool{}
+					for i, a := range call.Call.Args {
+						if i < len(cal.Params) && isStrings(a.Type()) && derived(a) {
+							sub[cal.Params[i]] = true
+						}
+					}
+					if len(sub) > 0 {
+						predsIn(cal, sub, depth+1, out)
 					}
 				}
-				if kept > 0 {
+			}
+		}
+	}
+	var sites []site
+	for _, f := range c.P.ModuleFuncs() {
+		if f.Parent() != nil {
+			continue
+		}
+		for _, g := range append([]*ssa.Function{f}, f.AnonFuncs...) {
+			for _, b := range g.Blocks {
+				for _, ins := range b.Instrs {
+					call, ok := ins.(*ssa.Call)
+					if !ok {
+						continue
+					}
+					cal := call.Call.StaticCallee()
+					if cal == nil || cal.Pkg == nil || inModule(cal) || !strings.Contains(cal.Name(), "Glob") || len(call.Call.Args) == 0 {
+						continue
+					}
+					if sl, ok := call.Type().(*types.Tuple); !ok || sl.Len() == 0 || types.TypeString(sl.At(0).Type(), nil) != "[]string" {
+						continue
+					}
+					st := site{f: f, pos: call.Pos(), preds: map[string]bool{}}
+					predsIn(f, map[ssa.Value]bool{call: true}, 0, st.preds)
 					sites = append(sites, st)
 				}
 			}
 		}
 	}
-	c.census("G-SIBGLOB", "expansions of a wildcard include pattern whose matches are collected", len(sites), 1)
+	c.census("G-SIBGLOB", "expansions of a wildcard include pattern", len(sites), 1)
 	if len(sites) < 2 {
 		return
 	}
@@ -887,7 +961,7 @@ func ruleGlobSiblings(c *Ctx) {
 		sort.Strings(extra)
 		sort.Strings(all)
 		c.check(len(extra) == 0, "G-SIBGLOB", funcName(s.f), "glob matches are filtered like in the sibling expanders", s.pos,
-			fmt.Sprintf("the matches kept depend on %v, as in the other %d expander(s)", all, len(sites)-1),
+			fmt.Sprintf("library predicates deciding which matches are kept: %v, as in the other %d expander(s)", all, len(sites)-1),
 			fmt.Sprintf("this expansion of a wildcard include keeps or drops matches by %v, which the other expander(s) of include patterns do not apply: the include loader (rebuild) and the workspace's include graph (incremental) disagree on which files a pattern includes, so files are indexed after edits that a fresh load would not contain (or the reverse)", extra))
 	}
 }
